@@ -125,6 +125,9 @@ Definition cache_op_eqb (a b : cache_op) : bool :=
 Definition rules_of (l : list (N * N)) : N -> N :=
   fun f => match find (fun kv => fst kv =? f) l with Some kv => snd kv | None => 0 end.
 
+(* oracle of a reload: the keys whose re-sync task was delivered to the worker *)
+Definition sent_of (l : list ckey) : ckey -> bool := fun k => existsb (ckey_eqb k) l.
+
 (* implementation dump of one cache value: entry, RouteOwnerKey (numbered), deadline, lastAccess *)
 Definition live_dump := list (ckey * (cache_entry * (N * (N * N)))).
 
